@@ -144,6 +144,8 @@ class C15(vlib.Driver):
             for lead in vleads:
                 for inp in ["numpy", "tensor"]:
                     cases.append({"kind": "vect", "space": sp, "lead": lead, "input": inp, "pat": 0})
+        for sp in [{"t": "discrete", "n": 3}, {"t": "discrete", "n": 1}, {"t": "box", "shape": [], "dtype": "float32", "low": -1, "high": 1}]:
+            cases.append({"kind": "vect", "space": sp, "lead": [], "input": "number", "pat": 0})     # a Python int / float
         for combo in [["mb2", "d3"], ["d3", "mb2"], ["img", "v2"], ["md", "s0"]]:
             for lead in vleads:
                 cases.append({"kind": "vect", "space": {"t": "dict", "fields": [[i, leafs[k]] for i, k in enumerate(combo)]},
@@ -234,13 +236,13 @@ class C15(vlib.Driver):
         out = []
         lead = case["lead"]
         kind = case["space"]["t"]
-        if case.get("bad") or len(lead) > 2:
-            return out                                       # outside the property's inputs: K only
+        if case.get("bad") or len(lead) > 2 or (case.get("trail") and len(lead) == 2):
+            return out                                       # outside the property's inputs ((T,E,1) columns, bad ranks/classes): K only
         if case["kind"] == "vect":
             if len(lead) <= 1:
                 want = lead[0] if lead else 1
                 if "err" in obs:
-                    out.append(Violation("vect-dim", f"vect:{_vect_kind(case)}:raises",
+                    out.append(Violation("vect-dim", f"vect:{_vect_kind(case)}:{'number-' if case['input'] == 'number' else ''}raises",
                                          f"get_vect_dim raised {obs['err']}: {obs.get('msg')} for lead {lead}"))
                 elif obs["ok"] != want:
                     out.append(Violation("vect-dim", f"vect:{_vect_kind(case)}:wrong", f"get_vect_dim = {obs['ok']}, expected {want}"))
